@@ -146,7 +146,7 @@ Proof.
     + destruct wr; fin.
   - (* AAlloc *)
     destruct (nth_error app t) as [p|] eqn:N; try discriminate.
-    destruct (in_manager p); inv_some H. unfold trigger_rule.
+    destruct (in_manager p && (0 <? refs - dr)); inv_some H. unfold trigger_rule.
     destruct gc; simpl; destruct (hwm c <=? cnt + d)%Z; destruct pc, sg; fin.
   - (* ACount *) inv_some H. fin.
   - (* AGcTry *)
